@@ -23,12 +23,16 @@ RULES: Dict[str, str] = {
     'R-SORT-TOTAL': 'sa.rules.sorttotal:run',
     'R-MANGLE-PROTOCOL': 'sa.rules.imports:run',
     'R-REPEAT-COUNT': 'sa.rules.repeat:run',
+    'R-LALR-DRIVER': 'sa.rules.lalr:run_driver',
+    'R-LALR-TABLE': 'sa.rules.lalr:run_table',
     'R-CONFIG-FORWARD': 'sa.rules.structure:run_config_forward',
     'R-OVERWRITTEN-STORE': 'sa.rules.structure:run_overwritten',
     'R-COPY-COVERS': 'sa.rules.structure:run_copy_covers',
     'R-SPLIT-ARMS': 'sa.rules.structure:run_split_arms',
     'R-PARAM-FORWARD': 'sa.rules.structure:run_param_forward',
     'R-CLASS-MUTABLE': 'sa.rules.structure:run_class_mutable',
+    'R-GUARD-SAME-SET': 'sa.rules.structure:run_guard_same_set',
+    'R-FLAG-DEFAULT': 'sa.rules.structure:run_flag_default',
     'R-SCAN-BUFFER': 'sa.rules.forest:run_scan_buffer',
     'R-IDENTITY-EQ': 'sa.rules.eqhash:run_identity',
     'R-SPLIT-TOTAL': 'sa.rules.indenter:run_split_total',
@@ -96,7 +100,7 @@ PROPERTIES.update({
               'conversion are tested only by identity with their sentinel (None / falsy children are kept).',
               'that shaping equals the documented function of the derivation for all grammars; agreement of engine results in general.',
               'AST sibling-agreement rules: truth-table comparison of extracted predicates, prefix protocol, eq/hash field sets'),
-    'C04': _p(['R-NODECACHE', 'R-EQHASH', 'R-AMBIG-INDEX', 'R-SCAN-BUFFER', 'R-SENTINEL-SLOTS', 'R-PARAM-FORWARD'],
+    'C04': _p(['R-NODECACHE', 'R-EQHASH', 'R-AMBIG-INDEX', 'R-SCAN-BUFFER', 'R-SENTINEL-SLOTS', 'R-PARAM-FORWARD', 'R-GUARD-SAME-SET', 'R-FLAG-DEFAULT'],
               'SPPF symbol nodes are unique per (symbol, start, end) label and every family is attached to the node of its own label; '
               'packed/token nodes hash consistently with equality; ambiguity-expander indices refer to the unfiltered expansion.',
               'completeness or soundness of the forest and of its expansion to trees.',
@@ -174,7 +178,7 @@ PROPERTIES.update({
               'partial string operation on the newline token, end-of-stream DEDENTs borrow the last token by identity test.',
               'agreement with CPython\'s tokenizer on inputs.',
               'structural push/pop pairing proof over the AST, comparison-operator extraction, reset-set inclusion'),
-    'C20': _p(['R-VISIT-GUARD', 'R-NODECACHE', 'R-EQHASH', 'R-SCAN-BUFFER'],
+    'C20': _p(['R-VISIT-GUARD', 'R-NODECACHE', 'R-EQHASH', 'R-SCAN-BUFFER', 'R-GUARD-SAME-SET', 'R-AMBIG-INDEX'],
               'every push on the walk stack is preceded by the on-path test that diverts to on_cycle; enter/leave bookkeeping is paired; the loop '
               'ends only on stack exhaustion; visit_*_in overrides schedule only children of their node; node identity discipline as in C04.',
               'that the forest encodes exactly the derivations; is_ambiguous.',
@@ -214,12 +218,29 @@ PROPERTIES.update({
               'loop summaries by fold / invariant, polynomial normal forms'),
 })
 
+PROPERTIES.update({
+    'C02': _p(['R-LALR-DRIVER', 'R-LALR-TABLE', 'R-TERM-NAME-PROTOCOL'],
+              'clause-level necessary conditions of the LALR(1) construction and of its driver: the shift/reduce loop keeps the state stack and '
+              'the value stack in lockstep (one push each per round, equal cuts on every path), reduces by len(rule.expansion) with the arguments '
+              'read before and the goto looked up after the cut (row of the new top state, column of the rule\'s origin), consumes the token '
+              'exactly on a shift and accepts only for $END with the end state on top; shift actions are the LR(0) transitions; competing '
+              'reductions are resolved only by a strictly greater priority (descending sort, missing = 0), otherwise recorded and raised as '
+              'GrammarError; a reduce action is stored only where there is no shift action; Follow = digraph(includes, digraph(reads, DR)) '
+              'distributed through lookback; `includes` requires the rest of the rule to be nullable (every later position, to the end) and only '
+              'relates non-terminal transitions formed before the walk advances; lookback pairs the final state of a rule walked from its start '
+              'with that rule; DR = terminals after the transition, reads = nullable non-terminals after it, the start transition reads $END; the '
+              'digraph traversal (unvisited successors first, smaller positive depth, union for every successor, whole-component pop); '
+              'terminal names in expected sets come from the parse table.',
+              'that the resulting automaton is the LALR(1) automaton of the grammar for all grammars (correctness of the LR(0) item sets, of the '
+              'relations as a whole, of NULLABLE); that parse() accepts exactly the language; accepts()/choices() (C13).',
+              'path-vector counting over the driver loop, statement-order and path-condition rules, clause-by-clause comparison of the relation '
+              'builders with the DeRemer-Pennello definitions over the canonical form'),
+})
+
 
 NOT_APPLICABLE = {
     'C01': 'membership in L(G) for all grammars x inputs is functional correctness of a chart algorithm; no ownership, ordering, pairing or '
            'agreement fact in the source is a necessary condition specific to it (R-EQHASH/R-NODECACHE cover Earley data structures under C04/C20).',
-    'C02': 'correctness of the DeRemer-Pennello relations and of the automaton is algorithmic and per grammar; a rule pinning one comparison '
-           'operator of the tie-break would be a frozen fragment, not a decision of the property.',
     'C19': 'a value-level round trip over all trees of a grammar class; the tree-matching grammar is a second compilation whose agreement with '
            'the first is semantic; the predicate the two share (is_discarded_terminal) is checked under C03.',
 }
